@@ -95,6 +95,8 @@ def run(ctx) -> None:
         ctx.check("R1", restrict[v] not in ta.split() and "--contains" not in ta and "--points-at" not in ta,
                   f"{v} ls_tags template lists tags of all branches", f"vcs template {v}/ls_tags is restricted", repr(ta), loc="src/bumpver/vcs.py")
 
+    listing_failure_rule(ctx, "R1")
+
     # ---------------------------------------------------------------- R1 _update_cfg_from_vcs
     uc = prog.function("cli._update_cfg_from_vcs")
     ctx.visit(uc.fq)
@@ -392,6 +394,45 @@ def run(ctx) -> None:
         and shapes.flows_from(gate, tv.args[0], lambda e: isinstance(e, ast.Call) and e in gtc2)
     ctx.check("R5", ok_tv, "gate: compared tags are the pattern-valid tags of get_tags(GLOBAL)", "cli._is_valid_version: uniqueness set is not the valid tags of all branches",
               unparse(tv) if tv is not None else "", loc=gate.loc())
+
+
+def listing_failure_rule(ctx, rule: str) -> None:
+    """A failing fetch / tag listing (CalledProcessError) is never converted into 'there are no tags': every handler that
+    can catch it around such a command ends in a raise or a non-zero exit."""
+    from sa.cfg import handler_can_catch
+    prog, cfgs, effects = ctx.prog, ctx.cfgs, ctx.effects
+    listing = ("VCS_FETCH", "VCS_READ:ls_tags")
+    n_try = 0
+    for fq in sorted(effects.sites):
+        if not (fq.startswith("vcs.") or fq.startswith("cli.")):
+            continue
+        fn = prog.function(fq)
+        tries = [n for n in walk_no_nested(fn.node) if isinstance(n, ast.Try)]
+        if not tries:
+            continue
+        cfg = None
+        for tr in tries:
+            eff: T.Dict[str, T.List[str]] = {}
+            for st in tr.body:
+                eff.update(effects.node_effects(fn, st))
+            hit = sorted(e for e in eff if e.startswith(listing))
+            if not hit:
+                continue
+            n_try += 1
+            cfg = cfg or cfgs.get(fq)
+            for h in tr.handlers:
+                hn = [n for n in cfg.nodes if n.kind == "handler" and n.ast is h]
+                if not hn:
+                    raise AnalysisError(f"C09: no CFG node for the handler at {fn.loc(h)}")
+                if not handler_can_catch(hn[0].extra.get("types"), "CalledProcessError"):
+                    ctx.ok(rule, f"{fq}: handler `except {unparse(h.type) if h.type else ''}` around {hit} cannot catch CalledProcessError")
+                    continue
+                out = shapes.handler_outcome(cfg, hn[0].id)["outcomes"]
+                ctx.check(rule, "fallthrough" not in out and not any(o == "exit:0" for o in out),
+                          f"{fq}: handler for a failed {hit} re-raises / exits non-zero",
+                          f"{fq}: a failed fetch / tag listing is swallowed (handler `except {unparse(h.type) if h.type else ''}` continues normally), so the tags are silently taken to be empty",
+                          f"try body runs {hit}; handler outcomes {sorted(out)}", loc=fn.loc(h))
+    ctx.floor(rule, "try statements around fetch / tag listing commands", n_try, 1)
 
 
 def pep440_of_tag_rule(ctx, rule: str) -> None:
